@@ -135,16 +135,17 @@ def check(ctx):
         ok_b = _atomic(tail, "consumer_tail", "load") if bound == "consumer_tail" else (tail[0] == "mem" and tail[1][-1:] == ("fixed_tail",))
         ctx.ob("R09.3", f"{k}|bounded-by-published-tail", ok_b, body.loc(b), f"cursor compared with `{show(tail)}`; required: {'a load of consumer_tail (never publisher_tail: reserved-but-unwritten slots must stay invisible)' if bound == 'consumer_tail' else 'fixed_tail'}")
         idx = [(bb, c) for (bb, c) in body.calls if c.get("fname") in ("get_unchecked", "get_unchecked_mut")]
-        okidx = len(idx) == 1 and norm(strip_casts(dg.expr(idx[0][1]["args"][1]))) == norm(pos) and body.dominates(item_t, idx[0][0])
+        okidx = len(idx) == 1 and norm(strip_casts(dg.expr(idx[0][1]["args"][1]))) == norm(pos) and util.only_via(body, dg, b, item_t, empty_t, idx[0][0])
         ctx.ob("R09.3", f"{k}|reads-slot-at-cursor", okidx, body.loc(idx[0][0]) if idx else site, "yields buffer[cursor], only on the non-empty edge")
         rec = [(bb, c) for (bb, c) in body.calls if (R.atomic_target(body, c) or (0, 0, ""))[1] == "head" and "compare_exchange" in (R.atomic_target(body, c) or (0, 0, ""))[2]]
-        okr = len(rec) == 1 and body.dominates(empty_t, rec[0][0])
+        okr = len(rec) == 1 and util.only_via(body, dg, b, empty_t, item_t, rec[0][0])
         if okr:
             exp = strip_casts(dg.expr(rec[0][1]["args"][1])); new = strip_casts(dg.expr(rec[0][1]["args"][2]))
             okr = norm(new) == norm(pos) and exp[0] == "bin" and exp[1].rstrip("!~") == "Add" and {norm(strip_casts(exp[2])), norm(strip_casts(exp[3]))} == {norm(pos), ("const", 1)}
         ctx.ob("R09.3", f"{k}|recedes-on-empty", okr, body.loc(rec[0][0]) if rec else site, "on the empty answer the cursor is put back with CAS (cursor+1 -> cursor): the next poll sees the same position again (no event skipped)")
         nones = [bb for bb in sorted(body.reachable) for st in body.stmts(bb) if st[0] == "A" and not st[1]["p"] and st[1]["l"] == 0 and st[2][0] == "Agg" and st[2][1][0] == "Adt" and st[2][1][2] == "None"]
-        ctx.ob("R09.3", f"{k}|none-only-when-empty", bool(nones) and all(body.dominates(empty_t, nb) for nb in nones), site, "None is answered only on the empty edge")
+        nones += [bb for (bb, c_) in body.calls if (c_.get("f") or "").endswith("FromResidual::from_residual") and not c_["dst"]["p"] and c_["dst"]["l"] == 0]      # `opt?` answering None
+        ctx.ob("R09.3", f"{k}|none-only-when-empty", bool(nones) and all(util.only_via(body, dg, b, empty_t, item_t, nb) for nb in nones), site, "None is answered only on the empty edge")
     # ------------------------------------------------------------------ R09.4 storage stability
     writers = []
     for f in fx.fns:
